@@ -40,10 +40,22 @@ func newSyntaxError(err SyntaxError) *Node {
 
 func (self *Parser) syntaxError(err types.ParsingError) SyntaxError {
 	return SyntaxError{
-		Pos:  self.p,
+		Pos:  clampPos(self.p, len(self.s)),
 		Src:  self.s,
 		Code: err,
 	}
+}
+
+// clampPos keeps a reported position inside the source: the native scanners
+// leave their cursor a few bytes past the end (or at -1) when the input ends early.
+func clampPos(pos int, size int) int {
+	if pos > size {
+		return size
+	}
+	if pos < 0 {
+		return 0
+	}
+	return pos
 }
 
 func unwrapError(err error) *Node {
